@@ -108,7 +108,72 @@ def run_sequence(args):
             elif g.indent_level != 0:
                 problems.append((k, "after a successful visit the reused CGenerator is left at indent_level=%r (a fresh one is at 0): the next visit will differ" % g.indent_level))
                 g = CGenerator()
+            else:
+                why = generator_history(g, used[1], k)
+                if why:
+                    problems.append((k, why))
+                    g = CGenerator()
     return problems
+
+
+def _visit_outcome(gen, node):
+    try:
+        return ("OK", gen.visit(node))
+    except RecursionError:
+        return ("FUEL",)
+    except Exception as e:  # noqa
+        return ("EXC", type(e).__name__)
+
+
+def generator_history(g, ast, k):
+    """what a generator prints for a node depends on the node only, not on what the same generator
+    printed before: after the whole tree, sub-trees visited on their own (they were reached at another
+    indentation before) and the tree again after an edit must come out as from a fresh generator"""
+    import copy
+    from pycparser import c_ast
+    from pycparser.c_generator import CGenerator
+    nodes = []
+
+    def walk(n, depth):
+        if depth > 60:
+            return
+        nodes.append(n)
+        for _, c in n.children():
+            walk(c, depth + 1)
+    walk(ast, 0)
+    step = max(1, len(nodes) // 25)
+    for sub in nodes[1::step]:
+        a = _visit_outcome(g, sub)
+        b = _visit_outcome(CGenerator(), sub)
+        if a[0] == "FUEL" or b[0] == "FUEL":
+            continue
+        g.indent_level = 0          # a failed visit may leave the level anywhere; that is not what is tested here
+        if a != b:
+            return "call %d: a %s node visited on its own after the whole tree prints differently with the generator that printed the tree: %r vs %r (fresh)" % (k, type(sub).__name__, a[-1][:60], b[-1][:60])
+    # edit the tree in place, visit again
+    edited = False
+    for n in nodes:
+        if isinstance(n, (c_ast.Struct, c_ast.Union)) and n.decls:
+            extra = copy.deepcopy(n.decls[0])
+            n.decls.append(extra)
+            edited = True
+            break
+        if isinstance(n, c_ast.Enum) and n.values is not None and n.values.enumerators:
+            n.values.enumerators.append(c_ast.Enumerator("ADDED_LATER", None))
+            edited = True
+            break
+    if not edited:
+        for n in nodes:
+            if isinstance(n, c_ast.Compound) and n.block_items:
+                n.block_items.append(c_ast.EmptyStatement())
+                edited = True
+                break
+    if edited:
+        a = _visit_outcome(g, ast)
+        b = _visit_outcome(CGenerator(), ast)
+        if a[0] != "FUEL" and b[0] != "FUEL" and a != b:
+            return "call %d: after the tree was edited in place the generator that printed it before prints something else than a fresh one" % k
+    return None
 
 
 def lexer_reuse(args):
@@ -172,7 +237,7 @@ def run(ctx):
     seqs.append((GEN_STATE + GEN_STATE,))
     seqs.append((CLASH + CLASH,))
     seqs.append(([pool[0], pool[0], CLASH[3], pool[0]],))
-    ctx.rule("%d sequences of 2-16 parse calls on one CParser instance (systematic: 6 file-scope declarations of a name x 15 continuations that succeed or fail at nesting depth 0-3 / inside a struct, for-init, initializer, switch, pragma, after a linemarker, each followed by each of 15 probes whose parse depends on what the name is; pairs of such setups; 19 generator-state probes (empty / nested struct, union, enum bodies, empty blocks and switches, pragmas) each followed by programs whose text shows the indentation; random: valid programs of the pool, programs truncated at arbitrary tokens - leaving scopes open -, programs with clashing typedef/variable names, linemarkers, lexer errors), each call compared (AST incl. coordinates, or exception message) with a fresh instance; ASTs of different calls must share no node object; the same CGenerator instance is reused across the successful calls; a CLexer is reused through input() after being abandoned mid-stream" % len(seqs))
+    ctx.rule("%d sequences of 2-16 parse calls on one CParser instance (systematic: 6 file-scope declarations of a name x 15 continuations that succeed or fail at nesting depth 0-3 / inside a struct, for-init, initializer, switch, pragma, after a linemarker, each followed by each of 15 probes whose parse depends on what the name is; pairs of such setups; 19 generator-state probes (empty / nested struct, union, enum bodies, empty blocks and switches, pragmas) each followed by programs whose text shows the indentation; random: valid programs of the pool, programs truncated at arbitrary tokens - leaving scopes open -, programs with clashing typedef/variable names, linemarkers, lexer errors), each call compared (AST incl. coordinates, or exception message) with a fresh instance; ASTs of different calls must share no node object; the same CGenerator instance is reused across the successful calls, then for sub-trees visited on their own and for the tree again after an edit in place; a CLexer is reused through input() after being abandoned mid-stream" % len(seqs))
     res = pmap(run_sequence, seqs)
     for (texts,), probs in zip(seqs, res):
         for k, why in probs:
